@@ -3,6 +3,7 @@ package props
 import (
 	"bytes"
 	"crypto/ecdsa"
+	"crypto/elliptic"
 	"fmt"
 	"math/big"
 	"testing"
@@ -56,7 +57,7 @@ func genC08(r *sim.Rand, tier string) *sim.Program {
 	for i := 0; i < ns; i++ {
 		fault := 0
 		if r.Chance(1, 2) {
-			fault = r.Range(1, 11)
+			fault = r.Range(1, 12)
 		}
 		// impl A, impl B, fault kind, message index (0..2), position, value, scalar seeds
 		degenerate := 0
@@ -71,7 +72,7 @@ func genC08(r *sim.Rand, tier string) *sim.Program {
 		if r.Chance(1, 5) {
 			mixed = r.Range(1, 2) // 1: only the responder generates confirmation values; 2: only the initiator does
 		}
-		p.Add("session", r.Intn(2), r.Intn(2), fault, r.Intn(3), r.Intn(1<<16), 1+r.Intn(255), r.Intn(1<<30), r.Intn(1<<30), degenerate, reuse, mixed, r.PickInt(0, 0, 1, 2, 3), r.PickInt(0, 0, 0, 1))
+		p.Add("session", r.Intn(2), r.Intn(2), fault, r.Intn(3), r.Intn(1<<16), 1+r.Intn(255), r.Intn(1<<30), r.Intn(1<<30), degenerate, reuse, mixed, r.PickInt(0, 0, 1, 2, 3), r.PickInt(0, 0, 0, 1, 2, 3, 6, 7, 4))
 	}
 	if r.Chance(1, 3) {
 		p.Add("ecdh")
@@ -340,7 +341,7 @@ func execC08(t *testing.T, p *sim.Program, c *sim.Ctx) {
 		c.Nontriv = true
 		implA, implB := op.Int(0)&1, op.Int(1)&1
 		fault, fmsg, fpos, fval := op.Int(2), ((op.Int(3)%3)+3)%3, op.Int(4), byte(op.Int(5))
-		if fault < 0 || fault > 11 {
+		if fault < 0 || fault > 12 {
 			fault = 0
 		}
 		if fval == 0 {
@@ -421,6 +422,29 @@ func execC08(t *testing.T, p *sim.Program, c *sim.Ctx) {
 			} else {
 				keepA, keepB = nil, nil
 			}
+			// the *ecdsa.PublicKey objects the application hands to the library or receives from it stay the application's
+			var heldObj []*ecdsa.PublicKey
+			var heldWant [][]byte
+			// both parties in one process, handing the objects they got from the library straight to the peer's object (as the
+			// package's own tests do) instead of bytes: only in fault-free sessions between two sm2.KeyExchange objects
+			shareObjs := op.Int(12)&4 == 4 && implA == 0 && implB == 0 && f == 0
+			var sharedRA, sharedRB *ecdsa.PublicKey
+			hold := func(k *ecdsa.PublicKey) *ecdsa.PublicKey {
+				if k != nil && k.X != nil && k.Y != nil {
+					heldObj = append(heldObj, k)
+					heldWant = append(heldWant, pt65(k.X, k.Y))
+				}
+				return k
+			}
+			heldIntact := func(when string) bool {
+				for j, k := range heldObj {
+					if k.X == nil || k.Y == nil || k.X.BitLen() > 256 || k.Y.BitLen() > 256 || !bytes.Equal(pt65(k.X, k.Y), heldWant[j]) {
+						c.Fail("destroy-damaged-caller-data", i, op.K, "%s: an ephemeral public key object that the application received from / handed to the library was changed (object %d)", when, j)
+						return false
+					}
+				}
+				return true
+			}
 			// ---- A: message 1
 			var m1 []byte
 			if A.impl == 0 {
@@ -429,6 +453,7 @@ func execC08(t *testing.T, p *sim.Program, c *sim.Ctx) {
 					c.Fail("init-failed", i, op.K, "InitKeyExchange: %v", err)
 					return
 				}
+				sharedRA = R
 				m1 = pt65(R.X, R.Y)
 			} else {
 				m1 = A.ee.PublicKey().Bytes()
@@ -462,9 +487,19 @@ func execC08(t *testing.T, p *sim.Program, c *sim.Ctx) {
 				if d1[0] != 4 {
 					berr = fmt.Errorf("harness: message 1 is not an uncompressed point") // the application's deserialiser
 				} else {
-					R, s, err := B.ke.RepondKeyExchange(&sim.ScriptReader{Data: rB.FillBytes(make([]byte, 32))}, &ecdsa.PublicKey{Curve: privB.Curve, X: rx, Y: ry})
+					R, s, err := B.ke.RepondKeyExchange(&sim.ScriptReader{Data: rB.FillBytes(make([]byte, 32))}, func() *ecdsa.PublicKey {
+						if shareObjs && sharedRA != nil {
+							c.Hit("probe:ephemeral-key-objects-shared-between-parties")
+							return sharedRA
+						}
+						if f == 12 && fmsg == 0 {
+							return &ecdsa.PublicKey{Curve: elliptic.P256(), X: rx, Y: ry}
+						}
+						return hold(&ecdsa.PublicKey{Curve: privB.Curve, X: rx, Y: ry})
+					}())
 					berr = err
 					if err == nil {
+						sharedRB = R
 						m2 = append(pt65(R.X, R.Y), s...)
 					}
 				}
@@ -531,7 +566,25 @@ func execC08(t *testing.T, p *sim.Program, c *sim.Ctx) {
 				if d2[0] != 4 {
 					aerr = fmt.Errorf("harness: message 2 does not start with an uncompressed point")
 				} else {
-					keyA, m3, aerr = A.ke.ConfirmResponder(&ecdsa.PublicKey{Curve: privA.Curve, X: rx, Y: ry}, sbSeen)
+					inRB := hold(&ecdsa.PublicKey{Curve: privA.Curve, X: rx, Y: ry})
+					if f == 12 && fmsg == 1 {
+						inRB = &ecdsa.PublicKey{Curve: elliptic.P256(), X: rx, Y: ry}
+					}
+					if shareObjs && sharedRB != nil {
+						inRB = sharedRB
+					}
+					keyA, m3, aerr = A.ke.ConfirmResponder(inRB, sbSeen)
+					if aerr == nil && op.Int(12)&2 == 2 {
+						// the initiator is done and wipes its protocol object while the responder still waits for S_A
+						m3 = append([]byte{}, m3...)
+						keyA = append([]byte{}, keyA...)
+						A.ke.Destroy()
+						keepA = nil
+						c.Hit("probe:initiator-destroyed-before-responder-finished")
+						if !heldIntact("Destroy of the initiator's object in mid-session") {
+							return
+						}
+					}
 				}
 			} else {
 				pb, _ := ecdh.P256().NewPublicKey(pt65(privB.X, privB.Y))
@@ -646,6 +699,9 @@ func execC08(t *testing.T, p *sim.Program, c *sim.Ctx) {
 					c.Hit("probe:destroy-after-session")
 				}
 				keepA, keepB = nil, nil
+				if !heldIntact("Destroy after the session") {
+					return
+				}
 				if !bytes.Equal(before, snap()) {
 					c.Fail("destroy-damaged-caller-data", i, op.K, "Destroy on the key-exchange objects changed the agreed key, a message, an identifier or a static key that belongs to the caller")
 					return
@@ -722,6 +778,14 @@ func c08Fault(c *sim.Ctx, f int, targeted bool, m, prev []byte, pos int, val byt
 		}
 	case 9:
 		return nil
+	case 12: // a point of ANOTHER curve (the base point of NIST P-256); the application hands it over tagged with that curve
+		if len(out) >= 65 {
+			p := elliptic.P256().Params()
+			copy(out, pt65(p.Gx, p.Gy))
+			c.Hit("fault:point-of-another-curve")
+		} else {
+			out[pos%len(out)] ^= val
+		}
 	case 10, 11: // a NON-CANONICAL encoding congruent to a real point: ordinate y + p (10) or abscissa x + p (11)
 		if len(out) >= 65 {
 			pt := sm2m.SmallYPoint(pos)
